@@ -253,8 +253,9 @@ func init() {
 		T := cc.Signature().Results().At(0).Type()
 		data := x.freshVal(st, "readall", T)
 		e := x.freshVal(st, "readall_err", errT)
-		// io.ReadAll never returns a nil slice
+		// io.ReadAll never returns a nil slice; the slice is its caller's own
 		st.assume(Not(sliceNil(data.T)))
+		data.Fresh = true
 		return Val{Tup: []Val{data, e}}, true
 	}
 	libTable["io.LimitReader"] = func(x *Exec, fr *Frame, st *State, cc *ssa.CallCommon, a []Val) (Val, bool) {
